@@ -23,7 +23,7 @@ const (
 )
 
 // hashFunc is a function that hashes a message ID and a any-wrapped protobuf message.
-type hashFunc func(string, *anypb.Any) ([]byte, error)
+type hashFunc func(peer.ID, string, *anypb.Any) ([]byte, error)
 
 // Callback is a function that is called when a reliably-broadcast message was successfully received.
 type Callback func(ctx context.Context, peerID peer.ID, msgID string, msg proto.Message) error
@@ -35,7 +35,7 @@ type CheckMessage func(ctx context.Context, peerID peer.ID, msgAny *anypb.Any) e
 type signFunc func(msgID string, hash []byte) ([]byte, error)
 
 // verifyFunc is a function that verifies a message and its signatures.
-type verifyFunc func(string, *anypb.Any, [][]byte) error
+type verifyFunc func(peer.ID, string, *anypb.Any, [][]byte) error
 
 // BroadcastFunc is a function that reliably-broadcasts a message to all peers (excluding self).
 type BroadcastFunc func(ctx context.Context, msgID string, msg proto.Message) error
